@@ -29,6 +29,8 @@ func zzText(i int, pfx string) string {
 		return t + " <U1 " + d + ">>\n."
 	case 8: // an explicitly, wrongly numbered ellipsis (warning)
 		return "S8F1\n<L <U1 " + d + "> ...[5] <L x ...[7]>>\n."
+	case 9: // k arbitrary bytes in front of a message (accepted alone only for some of them: white space, comments, ...)
+		return rt.String(pfx+"pre", rt.Param("k")) + "S1F2 H<-E\n<U1 " + d + ">\n."
 	case 5: // two messages in one text, second without direction on the same line as its terminator
 		return "S1F1\n<A \"" + d + "\">\n.\nS1F2 ."
 	}
@@ -101,6 +103,10 @@ func ZZ_C19_concat() {
 			whole += seps[k-1]
 		}
 		msgs, errs, warns := Parse(p)
+		if len(errs) != 0 && []int{i1, i2}[k%2] == 9 && k < 2 {
+			rt.Reach("end") // an arbitrary text that is not accepted alone: outside the property's domain
+			return
+		}
 		rt.Assert(len(errs) == 0, "part:accepted")
 		alone = append(alone, msgs)
 		dl, ll := zzShift(whole)
